@@ -559,10 +559,15 @@ def r5_mnt_id_degradation(ctx):
         out.append(violated("C10.R5", "fetch_mnt_id:degradation-set", st[0].where(),
                             "statx failures that are silently turned into 'mount id unknown': %s%s" % (sorted(map(str, errnos)), " (and untested errors)" if untested else "")))
     # ... and a degraded ('unknown') mount id must never compare equal to a known one: the comparisons fail closed
-    from .c06 import r4_fail_closed
+    from .c06 import r4_fail_closed, r3_open_follow
     for i in r4_fail_closed(ctx):
         i.rule = "C10.R5"
         out.append(i)
+    # ... nor may a check be skipped because its input degraded: the comparison in open_follow runs on every path
+    for i in r3_open_follow(ctx):
+        if "link-mount-check" in i.key:
+            i.rule = "C10.R5"
+            out.append(i)
     return out
 
 
